@@ -122,6 +122,10 @@ def producer_table(unit, fn, tid, vid, loop):
                     ev.ev(rhs)
                     ev.env[l["referencedDecl"]["id"]] = 555
                     return 555
+            if k == "CallExpr":
+                fns_ = [f_ for f_ in unit.functions.get(A.callee_name(n) or "", []) if unit.body(f_) is not None]
+                if len(fns_) == 1:              # a helper of this unit (e.g. `type_carries_value(type)`): evaluated
+                    return ev.call_function(unit, fns_[0], [ev.ev(a_) for a_ in A.kids(n)[1:]])
             if k == "CallExpr" or k == "CXXMemberCallExpr" or k == "CXXOperatorCallExpr":
                 return 555                      # iterator helpers: opaque, no effect on the indices
             return NotImplemented
